@@ -1,31 +1,31 @@
 ; string ::= x52 b1 b0 <utf8-data> string | 'S' b1 b0 <utf8-data> | [x00-x1f] <utf8-data> | [x30-x33] b0 <utf8-data>
 ; lengths count characters (code points here; see DESIGN C02 note on UTF-16 units), never octets.
-; The encoder's rendering: non-final chunks of 2048 characters, final chunk in the shortest header form.
-(define-fun G.strChunk ((s Stream) (r Runes) (b (_ BitVec 64))) Stream
-  (snoc (snoc (snoc (snoc s (TByte #x52)) (TByte #x08)) (TByte #x00)) (TRunes r b (bvadd b #x0000000000000800))))
-(define-fun-rec G.strChunksTo ((r Runes) (b (_ BitVec 64))) Stream
-  (ite (bvsle b #x0000000000000000) emp (G.strChunk (G.strChunksTo r (bvsub b #x0000000000000800)) r (bvsub b #x0000000000000800))))
+; The encoder's rendering: non-final chunks of cs characters each (cs is the encoder's chunk-size constant in the tree
+; under verification; any 0 < cs <= 65535 is legal), final chunk in the shortest header form.
+(define-fun G.strChunk ((s Stream) (r Runes) (cs (_ BitVec 64)) (b (_ BitVec 64))) Stream
+  (snoc (snoc (snoc (snoc s (TByte #x52)) (TByte ((_ extract 7 0) (bvlshr cs #x0000000000000008)))) (TByte ((_ extract 7 0) cs))) (TRunes r b (bvadd b cs))))
+(define-fun-rec G.strChunksTo ((r Runes) (cs (_ BitVec 64)) (b (_ BitVec 64))) Stream
+  (ite (bvsle b #x0000000000000000) emp (G.strChunk (G.strChunksTo r cs (bvsub b cs)) r cs (bvsub b cs))))
 (define-fun G.strFinal ((s Stream) (r Runes) (b (_ BitVec 64)) (n (_ BitVec 64))) Stream
   (ite (bvule n #x000000000000001f)
        (snoc (snoc s (TByte ((_ extract 7 0) n))) (TRunes r b (bvadd b n)))
   (ite (bvule n #x00000000000003ff)
        (snoc (snoc (snoc s (TByte (bvadd #x30 ((_ extract 7 0) (bvlshr n #x0000000000000008))))) (TByte ((_ extract 7 0) n))) (TRunes r b (bvadd b n)))
        (snoc (snoc (snoc (snoc s (TByte #x53)) (TByte ((_ extract 7 0) (bvlshr n #x0000000000000008)))) (TByte ((_ extract 7 0) n))) (TRunes r b (bvadd b n))))))
-; start of the final chunk for n >= 1 characters: the largest multiple of 2048 below n
-(define-fun G.lastChunkStart ((n (_ BitVec 64))) (_ BitVec 64) (bvand (bvsub n #x0000000000000001) #xfffffffffffff800))
-(define-fun G.strProd ((r Runes)) Stream
-  (G.strFinal (G.strChunksTo r (G.lastChunkStart (rlen r))) r (G.lastChunkStart (rlen r)) (bvsub (rlen r) (G.lastChunkStart (rlen r)))))
+; start of the final chunk for n >= 1 characters: the largest multiple of cs below n
+(define-fun G.lastChunkStart ((n (_ BitVec 64)) (cs (_ BitVec 64))) (_ BitVec 64) (bvmul (bvudiv (bvsub n #x0000000000000001) cs) cs))
+(define-fun G.strProd ((r Runes) (cs (_ BitVec 64))) Stream
+  (G.strFinal (G.strChunksTo r cs (G.lastChunkStart (rlen r) cs)) r (G.lastChunkStart (rlen r) cs) (bvsub (rlen r) (G.lastChunkStart (rlen r) cs))))
 
 ; binary ::= x41 b1 b0 <binary-data> binary | 'B' b1 b0 <binary-data> | [x20-x2f] <binary-data> | [x34-x37] b0 <binary-data>
-; The encoder's rendering: non-final chunks of 4096 octets (tag x41 in the 2.0 text), final chunk 'B' or short form.
-(define-fun G.binChunk ((s Stream) (v Bytes) (b (_ BitVec 64))) Stream
-  (snoc (snoc (snoc (snoc s (TByte #x41)) (TByte #x10)) (TByte #x00)) (TWin v b (bvadd b #x0000000000001000))))
-(define-fun-rec G.binChunksTo ((v Bytes) (b (_ BitVec 64))) Stream
-  (ite (bvsle b #x0000000000000000) emp (G.binChunk (G.binChunksTo v (bvsub b #x0000000000001000)) v (bvsub b #x0000000000001000))))
+; The encoder's rendering: non-final chunks of cs octets (tag x41 in the 2.0 text; cs as for strings), final chunk 'B' or short form.
+(define-fun G.binChunk ((s Stream) (v Bytes) (cs (_ BitVec 64)) (b (_ BitVec 64))) Stream
+  (snoc (snoc (snoc (snoc s (TByte #x41)) (TByte ((_ extract 7 0) (bvlshr cs #x0000000000000008)))) (TByte ((_ extract 7 0) cs))) (TWin v b (bvadd b cs))))
+(define-fun-rec G.binChunksTo ((v Bytes) (cs (_ BitVec 64)) (b (_ BitVec 64))) Stream
+  (ite (bvsle b #x0000000000000000) emp (G.binChunk (G.binChunksTo v cs (bvsub b cs)) v cs (bvsub b cs))))
 (define-fun G.binFinal ((s Stream) (v Bytes) (b (_ BitVec 64)) (n (_ BitVec 64))) Stream
   (ite (bvule n #x000000000000000f)
        (snoc (snoc s (TByte (bvadd #x20 ((_ extract 7 0) n)))) (TWin v b (bvadd b n)))
        (snoc (snoc (snoc (snoc s (TByte #x42)) (TByte ((_ extract 7 0) (bvlshr n #x0000000000000008)))) (TByte ((_ extract 7 0) n))) (TWin v b (bvadd b n)))))
-(define-fun G.lastBinChunkStart ((n (_ BitVec 64))) (_ BitVec 64) (bvand (bvsub n #x0000000000000001) #xfffffffffffff000))
-(define-fun G.binProd ((v Bytes)) Stream
-  (G.binFinal (G.binChunksTo v (G.lastBinChunkStart (blen v))) v (G.lastBinChunkStart (blen v)) (bvsub (blen v) (G.lastBinChunkStart (blen v)))))
+(define-fun G.binProd ((v Bytes) (cs (_ BitVec 64))) Stream
+  (G.binFinal (G.binChunksTo v cs (G.lastChunkStart (blen v) cs)) v (G.lastChunkStart (blen v) cs) (bvsub (blen v) (G.lastChunkStart (blen v) cs))))
